@@ -91,6 +91,78 @@ def t1(rep, w):
     r.check(bool(ex) and bool(cm) and okarm, 'interpret executes only the Ok(function) of compile', 'interpret runs something other than the compiled Ok value', it.loc())
 
 
+def _progress_points(w, g):
+    adv = {bi for bi, t in g.calls() if callee_name(t) == SC + 'advance'}
+    eof = set()
+    for bi, t in g.calls():
+        if callee_name(t) == SC + 'is_at_end':
+            b = t.get('to')
+            tt = g.blocks[b]['t'] if b is not None else {'t': ''}
+            if tt['t'] == 'switch':
+                eof.add(tt['else'])
+    return adv, eof
+
+
+def _makes_tokens_behind_progress(w, g, depth):
+    """every block of g that builds a Token (aggregate or error_token / make_token) is reached only after an advance(), on the
+    end-of-input edge, or through a token delegated by a deeper helper"""
+    adv, eof = _progress_points(w, g)
+    hits = adv | eof | (_delegated_token_blocks(w, g, depth - 1) if depth > 0 else set())
+    makers = {bi for bi, b in enumerate(g.blocks) for s_ in b['s'] if s_.get('r', {}).get('rv') == 'agg' and s_['r'].get('adt') == 'yarel::scanner::Token'}
+    makers |= {bi for bi, t in g.calls() if callee_name(t) in (SC + 'error_token', SC + 'make_token')}
+    for m in makers:
+        if m in g.normal_blocks() and _reachable_avoiding(g, m, hits):
+            return False
+    return bool(makers)
+
+
+def _reachable_avoiding(g, target, avoid):
+    if 0 in avoid:
+        return False
+    seen, stack = set(), [0]
+    while stack:
+        b = stack.pop()
+        if b in seen or b in avoid:
+            continue
+        seen.add(b)
+        if b == target:
+            return True
+        stack.extend(g.succs()[b])
+    return False
+
+
+def _delegated_token_blocks(w, f, depth):
+    """blocks of f on the `Some(token)` / `Err(token)` arm of the result of a scanner helper that makes its tokens behind progress"""
+    out = set()
+    dom = None
+    for bi, t in f.calls():
+        n = callee_name(t) or ''
+        g = w.fns.get(n)
+        if g is None or not n.startswith(SC) or t['dst'].get('p'):
+            continue
+        ts = f.crate.tstr(f.local_ty(t['dst']['l']))
+        if 'scanner::Token' not in ts or not (ts.startswith('std::option::Option<') or ts.startswith('std::result::Result<')):
+            continue
+        if not _makes_tokens_behind_progress(w, g, depth):
+            continue
+        # the switch on the result's discriminant
+        org = origins(f)
+        for b2 in f.normal_blocks():
+            tt = f.blocks[b2]['t']
+            if tt['t'] != 'switch':
+                continue
+            pl = op_place(tt['d'])
+            if pl is None or not any(q[0] == ('call', bi, n) and '#discr' in q for q in org.get(pl['l'], ())):
+                continue
+            want = 1          # Some / Err are variant 1
+            tgt = [cb for v, cb in tt['cases'] if v == want] or ([tt['else']] if not any(v == want for v, _ in tt['cases']) else [])
+            if dom is None:
+                dom = f.dominators()
+            for x in tgt:
+                out |= {b3 for b3 in f.normal_blocks() if x in dom.get(b3, ())}
+    return out
+
+
 def t2(rep, w):
     r = rep.rule('T2', 'progress: every token scan consumes input or reports end of input; every recovery loop advances on each iteration', floor=5)
     st = w.require_fn(SC + 'scan_token', 'C03')
@@ -102,7 +174,10 @@ def t2(rep, w):
             tt = st.blocks[b]['t']
             if tt['t'] == 'switch':
                 eof.add(tt['else'])
-    ok = bool(adv) and c01.all_paths_hit(st, None, adv | eof)
+    # a token handed up by a helper (an error found while skipping a comment): the helper answers for it -- every place where it
+    # makes a token is itself behind an advance() or the end-of-input edge
+    delegated = _delegated_token_blocks(w, st, 2)
+    ok = bool(adv) and c01.all_paths_hit(st, None, adv | eof | delegated)
     r.check(ok, 'scan_token: every path advances or sits at end of input', 'scan_token can return a token without consuming a character: the parser '
             'loops forever on the same position', st.loc())
     av = w.require_fn(SC + 'advance', 'C03')
